@@ -244,20 +244,20 @@ Proof.
 Qed.
 
 (** The entry of a well-formed record rendered at offset [zlen pre] addresses its bases. *)
-Lemma layout_rec nl r pre post : wf_rec nl r = true ->
+Lemma layout_rec nl r pre post : wf_rec nl r = true -> is_empty r = false ->
   layout (pre ++ render_rec nl r ++ post) (entry nl (zlen pre) r) (bases r).
 Proof.
-  intros Hwf. destruct (wf_rec_parts _ _ Hwf) as (Hne & Hn & Hd & Hf & Hl & Hlb & Hbl).
+  intros Hwf He. destruct (wf_rec_parts _ _ Hwf He) as (Hne & Hn & Hd & Hf & Hl & Hlb & Hbl).
   pose proof (full_widths _ _ Hf) as Hw. pose proof (zlen_concat_full _ _ Hw) as Hcf.
   pose proof (term_zlen_pos (s_crlf r)) as Ht.
   set (sp := if nl then term (s_crlf r) else []).
   assert (Hsp0 : 0 <= zlen sp) by apply zlen_nonneg.
-  unfold layout, entry. cbn [r_len r_start r_bases r_bytes]. unfold tlen.
+  unfold layout, entry. rewrite He. cbn [r_len r_start r_bases r_bytes]. unfold tlen.
   split; [reflexivity|]. split; [lia|]. split.
   { destruct (s_full r); [destruct nl|]; lia. }
   intros i j k Hi Hj Hk Hjk Hend.
   rewrite zlen_concat_bases, Hcf in Hend.
-  unfold render_rec, render_body. fold sp.
+  unfold render_rec. rewrite He. unfold render_body. fold sp.
   rewrite <- !app_assoc. rewrite (app_assoc pre (render_header r)).
   rewrite <- zlen_app'.
   set (bytes_ := width r + match s_full r with [] => if nl then zlen (term (s_crlf r)) else 0 | _ :: _ => zlen (term (s_crlf r)) end).
@@ -330,7 +330,7 @@ Lemma entries_fresh rs1 r rs2 : forall off,
 Proof.
   induction rs1 as [|x rs1 IH]; intros off H; [reflexivity|].
   cbn [app] in H. destruct (nodup_names_cons _ _ H) as [Hdiff Hnd].
-  rewrite entries_cons, has_name_cons. unfold entry at 1. cbn [r_name].
+  rewrite entries_cons, has_name_cons. rewrite entry_name.
   rewrite bytes_eqb_sym, (Hdiff r) by (apply in_or_app; right; left; reflexivity).
   apply IH. assumption.
 Qed.
@@ -344,32 +344,57 @@ Theorem record_layout f rs1 r rs2 :
   wf f = true -> f_recs f = rs1 ++ r :: rs2 ->
   let nl := match rs2 with [] => f_final_nl f | _ => true end in
   let e := entry nl (zlen (blanks (f_lead f) ++ render_recs true rs1)) r in
-  lookup (s_name r) (index_of f) = Some e /\ layout (render f) e (bases r).
+  lookup (s_name r) (index_of f) = Some e /\ (is_empty r = false -> layout (render f) e (bases r)).
 Proof.
   intros Hwf Hsplit nl e. unfold wf in Hwf. bprop.
   rewrite Hsplit in *.
   split.
   - unfold index_of. rewrite Hsplit, entries_split.
     rewrite lookup_app_fresh by (eapply entries_fresh; eassumption).
-    subst e. rewrite zlen_app'. apply lookup_hit. reflexivity.
-  - unfold render. rewrite Hsplit, render_recs_split. fold nl.
+    subst e. rewrite zlen_app'. apply lookup_hit. apply entry_name.
+  - intros He. unfold render. rewrite Hsplit, render_recs_split. fold nl.
     rewrite app_assoc. subst e.
-    apply layout_rec. eapply wf_recs_split. eassumption.
+    apply layout_rec; [eapply wf_recs_split; eassumption|assumption].
 Qed.
 
 Lemma slice_full (l : list Z) : slice l 0 (zlen l) = l.
 Proof. unfold slice. rewrite Z.sub_0_r. cbn [Z.to_nat skipn]. unfold zlen. rewrite Nat2Z.id. apply firstn_all. Qed.
 
+Lemma empty_bases r : is_empty r = true -> bases r = [].
+Proof.
+  unfold is_empty, bases. intros H. apply andb_true_iff in H as [H1 H2].
+  apply is_nil_true in H1, H2. rewrite H1, H2. reflexivity.
+Qed.
+
 Lemma entry_len nl off r : r_len (entry nl off r) = zlen (bases r).
-Proof. reflexivity. Qed.
+Proof.
+  unfold entry. destruct (is_empty r) eqn:He; [|reflexivity].
+  rewrite (empty_bases r He). reflexivity.
+Qed.
+
+(** Seq.Read on a record of length zero (whatever its layout fields) is the
+    ideal reader over the empty string: never a division by zero. *)
+Lemma read_zero_length file e sizes : r_len e = 0 ->
+  seq_script file (mkSeq e 0 0 0) sizes = ideal_script [] [] sizes.
+Proof.
+  intros _. induction sizes as [|k t IH]; [reflexivity|].
+  cbn [seq_script ideal_script]. destruct (Z.ltb_spec k 0).
+  - exact IH.
+  - unfold seq_read. cbn [q_end q_cur]. destruct (Z.eqb_spec k 0).
+    + f_equal. exact IH.
+    + change (0 <=? 0) with true. cbv iota.
+      destruct (Z.ltb_spec (zlen (@nil Z)) k) as [_|Hx]; [|rewrite zlen_nil in Hx; lia].
+      destruct (Z.to_nat k); cbn [firstn skipn]; f_equal; exact IH.
+Qed.
 
 Theorem read_range_gen f rs1 r rs2 s e sizes :
-  wf f = true -> f_recs f = rs1 ++ r :: rs2 -> 0 <= s <= e -> e <= zlen (bases r) ->
+  wf f = true -> lines_fit (render f) = true ->
+  f_recs f = rs1 ++ r :: rs2 -> 0 <= s <= e -> e <= zlen (bases r) ->
   exists idx q,
     newindex (render f) = Ok idx /\ file_seqrange idx (s_name r) s e = Ok q /\
     seq_script (render f) q sizes = ideal_script (slice (bases r) s e) (slice (bases r) s e) sizes.
 Proof.
-  intros Hwf Hsplit Hse He.
+  intros Hwf Hfit Hsplit Hse He.
   destruct (record_layout f rs1 r rs2 Hwf Hsplit) as [Hlook Hlay]. cbv zeta in *.
   set (en := entry _ _ r) in *.
   exists (index_of f), (mkSeq en s s e). split; [apply newindex_render; assumption|]. split.
@@ -377,23 +402,30 @@ Proof.
     destruct (Z.ltb_spec s 0); [lia|]. destruct (Z.ltb_spec e 0); [lia|]. destruct (Z.ltb_spec e s); [lia|].
     destruct (Z.ltb_spec (zlen (bases r)) s); [lia|]. destruct (Z.ltb_spec (zlen (bases r)) e); [lia|].
     reflexivity.
-  - apply (seq_script_ok _ _ _ Hlay); subst en; rewrite ?entry_len; lia.
+  - destruct (is_empty r) eqn:Hemp.
+    + rewrite (empty_bases r Hemp) in *. rewrite zlen_nil in He.
+      assert (s = 0) by lia. assert (e = 0) by lia. subst s e.
+      rewrite slice_nil_eq. apply read_zero_length. subst en. rewrite entry_len, (empty_bases r Hemp). reflexivity.
+    + apply (seq_script_ok _ _ _ (Hlay eq_refl)); subst en; rewrite ?entry_len; lia.
 Qed.
 
 Theorem read_whole_gen f rs1 r rs2 sizes :
-  wf f = true -> f_recs f = rs1 ++ r :: rs2 ->
+  wf f = true -> lines_fit (render f) = true -> f_recs f = rs1 ++ r :: rs2 ->
   exists idx q,
     newindex (render f) = Ok idx /\ file_seq idx (s_name r) = Ok q /\
     seq_script (render f) q sizes = ideal_script (bases r) (bases r) sizes.
 Proof.
-  intros Hwf Hsplit.
+  intros Hwf Hfit Hsplit.
   destruct (record_layout f rs1 r rs2 Hwf Hsplit) as [Hlook Hlay]. cbv zeta in *.
   set (en := entry _ _ r) in *.
   exists (index_of f), (mkSeq en 0 0 (r_len en)). split; [apply newindex_render; assumption|]. split.
   - unfold file_seq. rewrite Hlook. reflexivity.
-  - pose proof (zlen_nonneg (bases r)).
-    rewrite (seq_script_ok _ _ _ Hlay) by (subst en; rewrite ?entry_len; lia).
-    subst en. rewrite entry_len, slice_full. reflexivity.
+  - destruct (is_empty r) eqn:Hemp.
+    + assert (Hlen : r_len en = 0) by (subst en; rewrite entry_len, (empty_bases r Hemp); reflexivity).
+      rewrite Hlen, (empty_bases r Hemp). apply read_zero_length. assumption.
+    + pose proof (zlen_nonneg (bases r)).
+      rewrite (seq_script_ok _ _ _ (Hlay eq_refl)) by (subst en; rewrite ?entry_len; lia).
+      subst en. rewrite entry_len, slice_full. reflexivity.
 Qed.
 
 (** Reading an ideal stream to the end with positive buffer sizes delivers
@@ -414,30 +446,16 @@ Proof.
       * unfold zlen in *. rewrite skipn_length. lia.
 Qed.
 
-(** Seq.Read on a record of length zero (whatever its layout fields) is the
-    ideal reader over the empty string: never a division by zero. *)
-Lemma read_zero_length file e sizes : r_len e = 0 ->
-  seq_script file (mkSeq e 0 0 0) sizes = ideal_script [] [] sizes.
-Proof.
-  intros _. induction sizes as [|k t IH]; [reflexivity|].
-  cbn [seq_script ideal_script]. destruct (Z.ltb_spec k 0).
-  - exact IH.
-  - unfold seq_read. cbn [q_end q_cur]. destruct (Z.eqb_spec k 0).
-    + f_equal. exact IH.
-    + change (0 <=? 0) with true. cbv iota.
-      destruct (Z.ltb_spec (zlen (@nil Z)) k) as [_|Hx]; [|rewrite zlen_nil in Hx; lia].
-      destruct (Z.to_nat k); cbn [firstn skipn]; f_equal; exact IH.
-Qed.
-
 Theorem read_to_eof f rs1 r rs2 s e sizes :
-  wf f = true -> f_recs f = rs1 ++ r :: rs2 -> 0 <= s <= e -> e <= zlen (bases r) ->
+  wf f = true -> lines_fit (render f) = true ->
+  f_recs f = rs1 ++ r :: rs2 -> 0 <= s <= e -> e <= zlen (bases r) ->
   Forall (fun k => 1 <= k) sizes -> e - s < fold_right Z.add 0 sizes ->
   exists idx q,
     newindex (render f) = Ok idx /\ file_seqrange idx (s_name r) s e = Ok q /\
     drain (seq_script (render f) q sizes) = Some (slice (bases r) s e).
 Proof.
-  intros Hwf Hsplit Hse He Hpos Hsum.
-  destruct (read_range_gen f rs1 r rs2 s e sizes Hwf Hsplit Hse He) as (idx & q & H1 & H2 & H3).
+  intros Hwf Hfit Hsplit Hse He Hpos Hsum.
+  destruct (read_range_gen f rs1 r rs2 s e sizes Hwf Hfit Hsplit Hse He) as (idx & q & H1 & H2 & H3).
   exists idx, q. split; [assumption|]. split; [assumption|].
   rewrite H3. apply ideal_drain; [assumption|]. rewrite zlen_slice by lia. assumption.
 Qed.
